@@ -293,14 +293,16 @@ def replay_offset(cfg, w, tree):
     off = t - rel
     d = off + 2            # relative to '.', the address of the branch word itself
     opnd = ".+%o" % d if d >= 0 else ".-%o" % -d
-    src = "%s %s\n" % ("sob r1," if unsigned else "br", opnd)
+    # the parity of the instruction's own address is part of the witness: a branch behind an odd number of data bytes sits at an odd address
+    odd = rel % 2 == 1
+    src = "%s%s %s\n" % (".byte 0\n" if odd else "", "sob r1," if unsigned else "br", opnd)
     if unsigned:
         reach = -(2 ** (bits + 1)) + 2 <= off <= 0 and off % 2 == 0
         word = 0o077100 + ((-off // 2) if reach else 0)
     else:
         reach = -(2 ** bits) <= off <= 2 ** bits - 2 and off % 2 == 0
         word = 0o000400 + (((off // 2) % 256) if reach else 0)
-    exp = ["ok", word.to_bytes(2, "little").hex()] if reach else ["fail"]
+    exp = ["ok", ("00" if odd else "") + word.to_bytes(2, "little").hex()] if reach else ["fail"]
     job = {"kind": "asm", "sources": [src]}
     res = driver.native([job], tree)[0]
     obs = [res["status"]] + ([res["code_hex"]] if res["status"] == "ok" else [])
